@@ -44,7 +44,7 @@ def explore(ck):
     r = ck.rng; quick = ck.tier == 'quick'
     ck.rule = ('generated chains over the 8 coins, --verify on/off (on: block 0 is the coin\'s real genesis block), each transaction built around one feature: '
                'input/output count 252/253/254 (65535/65536 thorough), script length 0,1,75,76,252..256,65535,65536 (70000 thorough), segwit with stacks of 0,1,2,253 items '
-               'and item lengths 0,1,252,253,300,520,521,600,10000 (70000 thorough), non-canonical CompactSize widths for every count/length, u32/u64 extremes, byte-identical (coinbase and other) transactions in several blocks, XOR-obfuscated directories (key with a zero byte); tx counts 1,2,3,252..254; '
+               'and item lengths 0,1,252,253,300,520,521,600,10000 (70000 thorough), non-canonical CompactSize widths for every count/length, u32/u64 extremes, byte-identical (coinbase and other) transactions in several blocks, XOR-obfuscated directories (key with a zero byte), stored length prefixes 0 / len-1 / len+9 / 2^32-1 (reported as stored); tx counts 1,2,3,252..254; '
                'compared: the four CSV files byte for byte, names, totals, exit status. Non-trivial: a boundary-width count/length or a segwit transaction; distinct by feature tags.')
     feats = ['plain', 'in_count', 'out_count', 'script_len', 'segwit', 'noncanonical', 'extremes']
     ncases = 40 if quick else 240
@@ -75,7 +75,13 @@ def explore(ck):
         c = Case('c%d' % i, coin)
         if i % 5 == 2:      # an obfuscated directory (C11 explores keys and layouts; here: the field-exactness of C01 must not depend on the directory being plaintext)
             key = bytearray(gen.rb(r, 8)); key[r.randrange(8)] = 0 if i % 2 else key[0]; c.xor = bytes(key); tags.append('xor')
-        c.simple_layout(blocks); c.verify = verify; c.meta['tags'] = sorted(set(tags)); c.meta['cbs'] = ['csv']
+        if i % 6 == 4:      # the stored length prefix is reported as it is stored, whatever the length of the block that follows it
+            for h, b in enumerate(blocks):
+                sz = [None, 0, len(b.raw) + 9, 2**32 - 1, len(b.raw) - 1, 1][(h + i // 6) % 6]
+                off = c.put_block(0, b.raw, size=sz, pad=gen.rb(r, r.choice([0, 3]))); c.add_record(b, h, 0, off)
+            tags.append('odd-size-prefix')
+        else: c.simple_layout(blocks)
+        c.verify = verify; c.meta['tags'] = sorted(set(tags)); c.meta['cbs'] = ['csv']
         cases.append(c)
     def nontrivial(c, m):
         t = [x for x in c.meta['tags'] if x not in ('plain', 'extremes')]
